@@ -433,6 +433,26 @@ def call_builtin(ex, name, args, kw, st, node):
         return st.alloc(r, 'bytearray') if name.startswith('bytearray') else r
     if name in ('ValueError', 'TypeError', 'IndexError', 'AssertionError', 'Exception', 'KeyError'):
         return OpaqueStr()
+    if name == 'getattr' and len(A) in (2, 3) and isinstance(A[1], str) and isinstance(A[0], Ref) and isinstance(st.heap[A[0].id], dict):
+        rec = st.heap[A[0].id]
+        if A[1] in rec:
+            return rec[A[1]]
+        if len(A) == 3:
+            return A[2]
+        ex.oblige(st, False, 'no-AttributeError(%s)' % A[1], node)
+        return None
+    if name == 'setattr' and len(A) == 3 and isinstance(A[1], str) and isinstance(A[0], Ref) and isinstance(st.heap[A[0].id], dict):
+        rec = dict(st.heap[A[0].id])
+        rec[A[1]] = A[2]
+        st.write_cell(A[0], rec)
+        return None
+    if name in ('any', 'all') and len(A) == 1:
+        v = A[0]
+        sq = SSeq.of(list(v), 'list') if isinstance(v, tuple) else seq_arg(ex, v, st)
+        if isinstance(sq.n, int):
+            ts = [ex.truth(sq.get(i), st) for i in range(sq.n)]
+            return OR(*ts) if name == 'any' else AND(*ts)
+        raise SymErr('%s() over a sequence of symbolic length' % name)
     if name == 'chr' or name == 'ord':
         raise SymErr(name)
     if name == 'enumerate' or name == 'range' or name == 'zip':
@@ -568,7 +588,7 @@ def call_seq_method(ex, recv, name, A, kw, st, node):
         if name == 'get':
             return recv.get(A[0], A[1] if len(A) > 1 else None)
         raise SymErr('dict.%s' % name)
-    if isinstance(recv, SInt):
+    if isinstance(recv, (SInt, SOpt)):
         hook = getattr(ex.c, 'method_model', None)
         r = hook(ex, recv, name, A, kw, st, node) if hook is not None else NotImplemented
         if r is NotImplemented:
